@@ -17,11 +17,9 @@ enabled = open('checks/enabled.txt').read().split()
 t = []
 for cid in enabled:
     cfgs = [json.load(open(f)) for f in sorted(glob.glob('checks/%s.json' % cid) + glob.glob('checks/%s.*.json' % cid))]
-    names = []
-    for c in cfgs:
+    names = list(cfgs[0].get('props_files', [cid])) if cfgs else [cid]
+    for c in cfgs[1:]:
         names += c.get('props_files', [])
-    if not names:
-        names = [cid]
     for n in dict.fromkeys(names):
         t += ['Props/%s.vo' % n, 'Pins/%s.vo' % n]
     for c in cfgs:
